@@ -119,7 +119,10 @@ Grid33 == [pts |-> << <<R(0),R(0)>>, <<R(0),R(1)>>, <<R(0),R(3)>>, <<R(2),R(0)>>
            tris |-> <<<<0,3,4>>, <<0,4,1>>, <<1,4,5>>, <<1,5,2>>, <<3,6,7>>, <<3,7,4>>, <<4,7,8>>, <<4,8,5>>>>]
 Octa == [pts |-> << <<R(1),R(0),R(0)>>, <<R(-1),R(0),R(0)>>, <<R(0),R(2),R(0)>>, <<R(0),R(-2),R(0)>>, <<R(0),R(0),R(3)>>, <<R(0),R(0),R(-3)>> >>,
          tris |-> <<<<0,2,4>>, <<2,1,4>>, <<1,3,4>>, <<3,0,4>>, <<2,0,5>>, <<1,2,5>>, <<3,1,5>>, <<0,3,5>>>>]     \* closed octahedron
-MeshPoolBase == [tetrafin |-> TetraFin, twinfan |-> TwinFan, grid22 |-> Grid22, grid23 |-> Grid23, fan |-> Fan, islands |-> Islands, fin |-> Fin, tetra |-> Tetra, grid3d |-> Grid3D]
+\* a seam: vertex 3 duplicates vertex 2 (same coordinates, another index) and one triangle uses both - a zero-length edge and a
+\* zero-area triangle are legal members of "all triangle lists"
+Seam == [pts |-> << <<R(0),R(0)>>, <<R(4),R(0)>>, <<R(4),R(3)>>, <<R(4),R(3)>>, <<R(0),R(3)>> >>, tris |-> <<<<0,1,2>>, <<1,3,2>>, <<0,3,4>>>>]
+MeshPoolBase == [seam |-> Seam, tetrafin |-> TetraFin, twinfan |-> TwinFan, grid22 |-> Grid22, grid23 |-> Grid23, fan |-> Fan, islands |-> Islands, fin |-> Fin, tetra |-> Tetra, grid3d |-> Grid3D]
 MeshPool == IF Wide THEN MeshPoolBase @@ [grid33 |-> Grid33, octa |-> Octa] ELSE MeshPoolBase
 MeshClasses == {"TriMesh", "ColouredTriMesh", "TexturedTriMesh"}
 \* masking: kept triangles = all three vertices kept; vertices without a kept triangle are dropped; order-preserving renumbering
@@ -209,7 +212,9 @@ TMaskSound == case.kind = "tmask" => LET m == MeshPool[case.mesh] r == TriMaskRe
           \A k \in 1..3 : r.pts[r.tris[j][k]+1] = m.pts[m.tris[i][k]+1]          \* every flagged triangle survives
 \* boundary: a closed mesh has no boundary triangle; an isolated triangle is boundary
 GeomSound == case.kind = "geom" => LET m == MeshPool[case.mesh] g == MeshGeom(m) IN
-   /\ \A i \in 1..Len(m.tris) : RLt(Z0, g.areas2[i])                                       \* non-degenerate pool
+   /\ \A i \in 1..Len(m.tris) : RLe(Z0, g.areas2[i])
+   /\ (case.mesh # "seam" => \A i \in 1..Len(m.tris) : RLt(Z0, g.areas2[i]))                \* degenerate only where meant
+   /\ (case.mesh = "seam" => g.areas2[2] = Z0)
    /\ \A i \in 1..Len(m.tris) : Len(m.pts[1]) = 3 => Dot(g.normals[i], VSub(m.pts[m.tris[i][2]+1], m.pts[m.tris[i][1]+1])) = Z0
    /\ (case.mesh \in {"tetra", "octa"} => \A i \in 1..Len(m.tris) : ~g.boundary[i])
    /\ (case.mesh = "tetrafin" => g.boundary = <<FALSE, FALSE, FALSE, FALSE, TRUE>>)      \* an edge with three owners is not unshared
